@@ -610,6 +610,9 @@ func c03Apply(args []string) error {
 	defer f.Close()
 	resetGenerators(1)
 	sa, err := loadAssets(contactAssets())
+	// the modifiers are read against a SECOND load of the same assets (a caller that reloaded its assets since it read the
+	// contact): same UUIDs, other objects - identity of assets is their UUID
+	saMod, _ := loadAssets(contactAssets())
 	if err != nil {
 		return err
 	}
@@ -647,7 +650,7 @@ func c03Apply(args []string) error {
 			src := fmt.Sprintf("chain/%d/%d/%d", *seed, *shard, j)
 			for k := 0; k < *chainLen; k++ {
 				mc := all[rnd.Intn(len(all))]
-				mod, err := modifiers.ReadModifier(sa, concreteMod(&mc.Mod), assets.IgnoreMissing)
+				mod, err := modifiers.ReadModifier(saMod, concreteMod(&mc.Mod), assets.IgnoreMissing)
 				if err != nil {
 					return err
 				}
@@ -726,7 +729,7 @@ func c03Apply(args []string) error {
 		if err != nil {
 			return fmt.Errorf("%s: contact: %w", src, err)
 		}
-		mod, err := modifiers.ReadModifier(sa, concreteMod(&cs.Mod), assets.IgnoreMissing)
+		mod, err := modifiers.ReadModifier(saMod, concreteMod(&cs.Mod), assets.IgnoreMissing)
 		if err != nil {
 			return fmt.Errorf("%s: modifier %s: %w", src, concreteMod(&cs.Mod), err)
 		}
